@@ -335,7 +335,7 @@ def rule_lookup(ctx, F, rule2="R2", rule3="R3", ST=ST, SK=SK, floors=True):
     body, paths = value_at_rows(ctx, F, ST)
     frames = ("field", SELF, fl["frames"])
     T = None
-    n_lerp = n_zero = 0
+    n_lerp = n_zero = n_mapped = 0
     for p in paths:
         if p.outcome != "return":
             continue
@@ -345,8 +345,18 @@ def rule_lookup(ctx, F, rule2="R2", rule3="R3", ST=ST, SK=SK, floors=True):
         gm = [x for x in subterms((r,) + tuple(c[0] for c in p.conds)) if x[0] == "call" and x[1].endswith("::get")
               and x[2][0] == ("&", ("field", SELF, fl["imap"]))]
         if not gm:
+            # a row that produces a value without translating the caller's master index through the per-property
+            # index map treats the master index as a frame index: wrong as soon as one keyframe omits the property
+            # or an implicit 0% frame was inserted (seed S9-C01: an `is_dense` shortcut).  None rows before the map
+            # is consulted (the emptiness test) are fine.
+            if r[0] == "agg" and r[3] == "Some":
+                ctx.ob(rule2, lab + "/index-map-consulted", False,
+                       "a value is produced without translating the caller's master keyframe index through the "
+                       "per-property index map (the master index is not a frame index when a keyframe omits the "
+                       "property or an implicit 0% frame exists)", body["span"], trace_of(p), what="index-map-bypassed")
             continue
-        I = ("deref", ("field", ("variant", gm[0], "Some"), "0"))
+        n_mapped += 1
+        I =("deref", ("field", ("variant", gm[0], "Some"), "0"))
         ctx.ob(rule2, lab + "/hint-index", gm[0][2][1] == ("param", 3),
                "the index map is consulted with the caller's master index", body["span"], what="hint-not-used")
         flag = idec = present = None
@@ -383,6 +393,10 @@ def rule_lookup(ctx, F, rule2="R2", rule3="R3", ST=ST, SK=SK, floors=True):
             ov_ok = (flag == 1 and eq0(K) == 1 and present == 1)
             if ov_ok:
                 return "override"
+            if flag == 1 and eq0(K) == 1 and present is None:
+                # the caller enabled the start override and frame 0 is wanted, but this path never looked whether an
+                # override is present: the flag was narrowed or dropped on the way (seed S9-C10)
+                return "must-consult-override"
             alts = [plain(K)]
             if eq0(K) == 1:
                 alts.append(plain(("const", "usize", 0)))
@@ -391,6 +405,8 @@ def rule_lookup(ctx, F, rule2="R2", rule3="R3", ST=ST, SK=SK, floors=True):
             return alts
 
         def matches(fr, exp):
+            if exp == "must-consult-override":
+                return False
             if exp == "override":
                 return is_override(fr)
             return fr in exp
@@ -403,6 +419,17 @@ def rule_lookup(ctx, F, rule2="R2", rule3="R3", ST=ST, SK=SK, floors=True):
         ctx.ob(rule2, lab + "/clamped", okc, "the position is clamped to [0,1] before every use", body["span"],
                trace_of(p), what="position-not-clamped")
         T = clamps[0] if clamps else ("param", 2)
+        # the position may steer the lookup only through comparisons with frame positions: a decision that compares it
+        # with anything else (a cached threshold, a constant) makes the frame pair depend on more than the frame table
+        for (t, v, s) in p.conds:
+            if not (pse.contains(t, T) or pse.contains(t, ("param", 2))):
+                continue
+            okt = t[0] == "bin" and t[1] in ("Lt", "Le", "Gt", "Ge") and \
+                ((t[2] == T and t[3][0] == "field" and t[3][2] == fl["time"] and t[3][1] != SELF) or
+                 (t[3] == T and t[2][0] == "field" and t[2][2] == fl["time"] and t[2][1] != SELF))
+            ctx.ob(rule2, lab + "/position-decisions", okt,
+                   "the position may only be compared with frame positions; this row decides on %s" % show(t),
+                   body["span"], trace_of(p), what="position-compared-with-non-frame")
         lt = None
         at_frame = None
         for (t, v, s) in p.conds:
@@ -518,6 +545,7 @@ def rule_lookup(ctx, F, rule2="R2", rule3="R3", ST=ST, SK=SK, floors=True):
     if floors:
         ctx.floor(rule3, "eased-lerp rows of value_at", n_lerp, 2)
         ctx.floor(rule3, "zero-length rows of value_at", n_zero, 1)
+        ctx.floor(rule2, "rows of value_at that translate the master index through the index map", n_mapped, 3)
 
 
 def rule_zero_length(ctx, F, rule="R1"):
